@@ -132,6 +132,28 @@ func runC12(c *core.Ctx) {
 				payload = p
 			}
 		}
+		if i%41 == 7 {
+			// metadata files are not small: a link over a whole source tree, a layout with long rule lists
+			switch p := payload.(type) {
+			case intoto.Link:
+				if p.Products == nil {
+					p.Products = map[string]intoto.HashObj{}
+				}
+				for n := 0; n < 1500; n++ {
+					p.Products[fmt.Sprintf("src/generated/package-%04d/file-with-a-rather-long-name-%04d.go", n/20, n)] = intoto.HashObj{"sha256": fmt.Sprintf("%064x", n), "sha512": fmt.Sprintf("%0128x", n)}
+				}
+				payload = p
+			case intoto.Layout:
+				if len(p.Steps) > 0 {
+					steps := append([]intoto.Step{}, p.Steps...)
+					for n := 0; n < 2500; n++ {
+						steps[0].ExpectedProducts = append(steps[0].ExpectedProducts, []string{"ALLOW", fmt.Sprintf("dist/artifact-%05d.tar.gz", n)})
+					}
+					p.Steps = steps
+					payload = p
+				}
+			}
+		}
 		dsse := (i/2)%2 == 1
 		nsig := (i / 4) % 3
 		md, err := gen.NewMeta(payload, dsse)
@@ -643,6 +665,18 @@ func c12Validator(c *core.Ctx, keys []gen.KeyPair, cas []*gen.CA, certFn gen.Fun
 			{"malformed rule in inspection products", func(l *intoto.Layout, s *[]intoto.Signature) {
 				l.Inspect[0].ExpectedProducts = append(l.Inspect[0].ExpectedProducts, []string{"MATCH", "x", "WITH", "BANANAS", "FROM", "s"})
 			}},
+			{"malformed rule first in step materials, well-formed rules behind it", func(l *intoto.Layout, s *[]intoto.Signature) {
+				l.Steps[0].ExpectedMaterials = append([][]string{{"PERMIT", "*"}}, append(l.Steps[0].ExpectedMaterials, []string{"ALLOW", "x"}, []string{"DISALLOW", "*"})...)
+			}},
+			{"malformed rule in the middle of step products", func(l *intoto.Layout, s *[]intoto.Signature) {
+				l.Steps[0].ExpectedProducts = append(append([][]string{{"ALLOW", "a"}}, []string{"MATCH", "x", "WITH"}), []string{"DISALLOW", "*"})
+			}},
+			{"malformed rule first in inspection materials", func(l *intoto.Layout, s *[]intoto.Signature) {
+				l.Inspect[0].ExpectedMaterials = [][]string{{"REQUIRE"}, {"ALLOW", "*"}}
+			}},
+			{"malformed rule first in inspection products", func(l *intoto.Layout, s *[]intoto.Signature) {
+				l.Inspect[0].ExpectedProducts = [][]string{{"MATCH", "x", "IN"}, {"ALLOW", "y"}, {"DISALLOW", "*"}}
+			}},
 			{"pubkey id not hex", func(l *intoto.Layout, s *[]intoto.Signature) { l.Steps[0].PubKeys = []string{"xyz"} }},
 			{"pubkey id empty", func(l *intoto.Layout, s *[]intoto.Signature) { l.Steps[0].PubKeys = []string{""} }},
 			{"signature key id not hex", func(l *intoto.Layout, s *[]intoto.Signature) { (*s)[0].KeyID = "nothex" }},
@@ -766,7 +800,7 @@ func init() {
 	core.Register(&core.Property{
 		ID:    "C12",
 		Level: "exploration",
-		Rule: "(A) round trip: seeded links/layouts (hostile strings, nested values, constraints, CA maps; a fifth with absent collections, which the library writes as null) x wrapper x 0-2 signatures (legacy: one with certificate), Dump -> LoadMetadata / Metablock.Load: wrapper recognised, payload, signatures and signature validity preserved; (B) labelled single-point corruptions of the dumped JSON: drop/null/retype of the wrapper parts, wrong payload types, undecodable payload, truncations, unknown/odd type markers, drop/rename of every required top-level member, an unknown member at every fixed-schema level, a renamed member at every nested fixed-schema level, a value of another JSON type at every schema-typed node - all must be refused by both loaders; (C) ValidateMetablock against a reference validator (one predicate per format rule) on conforming bases and ~60 single-rule variants (plus 17 near-hexadecimal strings - sign, 0x, blanks, underscore, full-width digits - at every place where a hexadecimal string is demanded) each for layouts (all three key maps) and links. " +
+		Rule: "(A) round trip: seeded links/layouts (hostile strings, nested values, constraints, CA maps; a fifth with absent collections, which the library writes as null; every 41st of several hundred KiB: 1500 products / 2500 rules) x wrapper x 0-2 signatures (legacy: one with certificate), Dump -> LoadMetadata / Metablock.Load: wrapper recognised, payload, signatures and signature validity preserved; (B) labelled single-point corruptions of the dumped JSON: drop/null/retype of the wrapper parts, wrong payload types, undecodable payload, truncations, unknown/odd type markers, drop/rename of every required top-level member, an unknown member at every fixed-schema level, a renamed member at every nested fixed-schema level, a value of another JSON type at every schema-typed node - all must be refused by both loaders; (C) ValidateMetablock against a reference validator (one predicate per format rule) on conforming bases and ~64 single-rule variants (malformed rules also in front of and between well-formed ones) (plus 17 near-hexadecimal strings - sign, 0x, blanks, underscore, full-width digits - at every place where a hexadecimal string is demanded) each for layouts (all three key maps) and links. " +
 			"non-trivial = the corruption changed the parsed JSON / the variant differs from the base; distinct = (kind, wrapper, loader, corruption label) resp. hash of the value",
 		Assumptions: []string{
 			"an expiry with fractional seconds (2030-01-01T00:00:00.5Z) is not judged: it is a parseable UTC timestamp, although not of the YYYY-MM-DDThh:mm:ssZ shape",
